@@ -168,6 +168,16 @@ def check_filter(text, ast, rows, limit=0):
     if str(out.version) != str(g.version) or list(out.metadata.items()) != list(g.metadata.items()) or list(out.column.keys()) != list(g.column.keys()):
         return False
     return len(g) == len(rows) and all(a is b for a, b in zip(list(g), rows)) and [dict(r) for r in rows] == before
+
+def check_on_grid(g, text, ast):
+    """same comparison on a grid that already has a history: the rows the reference selects among the grid's current rows"""
+    rows = list(g)
+    res = outcome(lambda: g.filter(text))
+    if res[0] != 'ok':
+        return False
+    got = list(res[1])
+    want = [r for r in rows if r_eval(ast, rows, r) is True]
+    return len(got) == len(want) and all(a is b for a, b in zip(got, want)) and len(g) == len(rows)
 '''
 
 TAGS = ['ta', 'tb', 'tc', 'td']
@@ -371,6 +381,45 @@ def gen(tier):
 '''
     H.append(xhair.Harness('paths', src, timeout=120 if quick else 600,
                            what='a->b and a->b->c through rows with string ids: valid, dangling and non-reference intermediates'))
+    # a->b after the grid has a history (deletions, replacements, insertions; id index built before or not)
+    src = '''def paths_after_edits(edit: int, target: int, indexed: bool, form: int) -> bool:
+    """
+    pre: 0 <= edit <= 8 and 0 <= target <= 3 and 0 <= form <= 2
+    post: _
+    """
+    tg = [Ref('s2'), Ref('s3'), Ref('s4'), Ref('d0')][conc(target, 0, 3)]
+    rows = [{'id': 'd0', 'geoCity': 'Nowhere'}, {'id': 's1', 'siteRef': tg}, {'id': 's2', 'geoCity': 'Chicago'}, {'id': 's3', 'geoCity': 'Paris'},
+            {'id': 's5', 'siteRef': Ref('s1')}]
+    g = mkgrid(rows)
+    if indexed:
+        g.get('s1')
+    e = conc(edit, 0, 8)
+    if e == 1:
+        del g[0]
+    elif e == 2:
+        del g[2:3]
+    elif e == 3:
+        g[2] = {'id': 's2', 'geoCity': 'Paris'}
+    elif e == 4:
+        g[2] = {'id': 's4', 'geoCity': 'Chicago'}
+    elif e == 5:
+        g.append({'id': 's4', 'geoCity': 'Chicago'})
+    elif e == 6:
+        g.pop(3)
+    elif e == 7:
+        del g[0:3]
+    elif e == 8:
+        g.insert(0, {'id': 's4', 'geoCity': 'Chicago'})
+        del g[1]
+    f = conc(form, 0, 2)
+    if f == 0:
+        return check_on_grid(g, 'siteRef->geoCity == "Chicago"', ('cmp', '==', ['siteRef', 'geoCity'], 'Chicago'))
+    if f == 1:
+        return check_on_grid(g, 'siteRef->geoCity', ('has', ['siteRef', 'geoCity']))
+    return check_on_grid(g, 'not siteRef->geoCity', ('not', ['siteRef', 'geoCity']))
+'''
+    H.append(xhair.Harness('paths_after_edits', src, timeout=120 if quick else 600,
+                           what='a->b on a grid with a history: row deleted (index, slice), replaced (same id / new id), appended, popped, inserted; id index built before the edit or not'))
     src = '''def framing(limit: int, n: int, empty: bool, ver: int) -> bool:
     """
     pre: 0 <= limit <= 4 and 0 <= n <= 3 and 0 <= ver <= 1
